@@ -1,6 +1,7 @@
 // Constraint catalogue for invalid jobs (C12). Each entry mutates one field of a
 // valid, fully filled descriptor and names the error code(s) the documentation
 // assigns to that constraint.
+#include <algorithm>
 #include "interp.h"
 
 namespace {
@@ -237,8 +238,20 @@ viol_apply(int v, const JobSpec &s, IMB_JOB *j, std::vector<int> &e)
                         k = 17;
                 if ((c == IMB_CIPHER_DES || c == IMB_CIPHER_DOCSIS_DES) && k == 8)
                         k = 7;
+                if ((s.seed >> 5) & 1) {
+                        // a key size that other modes accept but this one does not
+                        static const uint64_t common[] = { 8, 16, 24, 32 };
+                        std::vector<int> ok = cipher_key_lens(c);
+                        for (int t = 0; t < 4; t++) {
+                                uint64_t cand = common[(s.seed / 64 + (uint64_t) t) % 4];
+                                if (std::find(ok.begin(), ok.end(), (int) cand) == ok.end()) {
+                                        k = cand;
+                                        break;
+                                }
+                        }
+                }
                 j->key_len_in_bytes = k;
-                e = { IMB_ERR_JOB_KEY_LEN };
+                e = { IMB_ERR_JOB_KEY_LEN, IMB_ERR_BURST_SUITE_ID }; // the burst API notices the changed session first
                 break;
         }
         case V_ZERO_CIPH_LEN: j->msg_len_to_cipher_in_bytes = 0; e = { IMB_ERR_JOB_CIPH_LEN }; break;
@@ -264,6 +277,9 @@ viol_apply(int v, const JobSpec &s, IMB_JOB *j, std::vector<int> &e)
                         nl = 13;
                 if (c == IMB_CIPHER_ZUC_EEA3 && s.key_len == 32 && (nl == 23 || nl == 25))
                         nl = 24;
+                // a length that is legal for a sibling configuration only (the checks are per key size / per mode)
+                if (c == IMB_CIPHER_ZUC_EEA3 && ((s.seed >> 3) & 1))
+                        nl = s.key_len == 32 ? 16 : ((s.seed >> 4) & 1) ? 23 : 25;
                 j->iv_len_in_bytes = nl;
                 e = { IMB_ERR_JOB_IV_LEN };
                 break;
